@@ -2,7 +2,7 @@ SPECIFICATION Spec
 CONSTANTS
   IterUniverse <- U_tiny
   ExportUniverse <- U_thorough
-  MaxSize = 200
+  MaxSize = 100
   NumValid = 8
   NumBase = 2
   NumCorr = 40
